@@ -194,6 +194,7 @@ struct Shrinker {
       // layout first
       { Layout keep = proj.layout; if (proj.layout.nfiles != 1) { proj.layout.nfiles = 1; render(proj); if (!test()) { proj.layout = keep; render(proj); } } }
       { Layout keep = proj.layout; if (proj.layout.style != 0) { proj.layout.style = 0; render(proj); if (!test()) { proj.layout = keep; render(proj); } } }
+      { Layout keep = proj.layout; if (proj.layout.cut_defs != 0) { proj.layout.cut_defs = 0; render(proj); if (!test()) { proj.layout = keep; render(proj); } } }
       { Layout keep = proj.layout; if (proj.layout.naming != 0) { proj.layout.naming = 0; render(proj); if (!test()) { proj.layout = keep; render(proj); } } }
       { Layout keep = proj.layout; if (proj.layout.spelling != 0) { proj.layout.spelling = 0; render(proj); if (!test()) { proj.layout = keep; render(proj); } } }
       bool progress = true;
